@@ -477,14 +477,14 @@ class ArrayContainer(TreeClass):
 
         detector_states = self.detector_states
         if reset_detector_states:
-            detector_states = {k: {k2: v2 * 0 for k2, v2 in v.items()} for k, v in detector_states.items()}
+            detector_states = {k: {k2: jnp.zeros_like(v2) for k2, v2 in v.items()} for k, v in detector_states.items()}
         arrays = arrays.aset("detector_states", detector_states)
 
         recording_state = self.recording_state
         if reset_recording_state and self.recording_state is not None:
             recording_state = RecordingState(
-                data={k: v * 0 for k, v in self.recording_state.data.items()},
-                state={k: v * 0 for k, v in self.recording_state.state.items()},
+                data={k: jnp.zeros_like(v) for k, v in self.recording_state.data.items()},
+                state={k: jnp.zeros_like(v) for k, v in self.recording_state.state.items()},
             )
         arrays = arrays.aset("recording_state", recording_state)
 
